@@ -41,7 +41,7 @@ claim("C01", "DESIGN.md 6 C01",
       "16 theorems: selective strategy - after a Pending return, a child that is awaited, was polled, last answered Pending and whose waker fired implies the newest "
       "parent waker was woken (join/try_join slice+tuple, merge, zip, FutureGroup, StreamGroup), plus quiescence (no wake outstanding => every awaited child polled and "
       "unsignalled); non-selective strategy and race/race_ok/chain/wait_until - every waker ever handed out is the parent waker of that poll and firing it wakes that parent. "
-      "C01_join_resolves_under_wake_driven_executor: under an executor that fires every child's most recent waker and then polls, a join of n>=1 Pending*-then-Ready children returns its positional result within (longest script) rounds and never unwinds. "
+      "C01_join_resolves_under_wake_driven_executor: under an executor that fires every child's most recent waker and then polls, a join of n>=1 Pending*-then-Ready children returns its positional result within (longest script) rounds and never unwinds; C01_merge_first_result_under_wake_driven_executor: the stream form for merge (first item or end within that many rounds). "
       "C01_*_trace restate it over the observable trace (bookkeeping recomputed from the events); C01_fire_total_*: every handle ever handed out names an existing slot, so firing it never fails. "
       "Nests of combinators are covered by universality (an inner combinator is an arbitrary child, a sub-waker an arbitrary parent) and instantiated by the harness in monitor-only suites. "
       "Partial: real thread interleavings are represented by the lock windows of the model (a wake is atomic with respect to a poll's critical sections)." + COMMON)
@@ -81,9 +81,9 @@ CO = (" The model is an acceptor at await-resolution granularity (Model/CoStream
       "that the acceptor accepts it; a monitor re-evaluates the property on every trace. The theorems hold for every accepted event list and every adapter "
       "configuration. Partial: the poll-level behaviour of futures_buffered::FuturesUnordered and of the compiler-generated async state machines is not "
       "modelled, only their observable events.")
-claim("C13", "DESIGN.md 6 C13", "C13_within_limit (in-flight <= limit), C13_result_structured (a result only when nothing is in flight), C13_at_most_once (no closure called twice for an item), C13_nothing_after_end. C13_at_least_once_each (when a result is returned without an error every taken item has been through every closure: exactly once)." + CO,
+claim("C13", "DESIGN.md 6 C13", "C13_within_limit (in-flight <= limit), C13_result_structured (a result only when nothing is in flight), C13_at_most_once (no closure called twice for an item), C13_nothing_after_end, C13_no_closure_future_outlives_the_operation (every closure future created in a history that ends with no work in flight - checked at the end of every trace - was completed or dropped within it). C13_at_least_once_each (when a result is returned without an error every taken item has been through every closure: exactly once)." + CO,
       "Coq proof of invariants over an acceptor + trace inclusion of the crate's observed runs")
-claim("C14", "DESIGN.md 6 C14", "For try_for_each and collect::<Result<Vec<_>, E>>(): C14_stops_taking (no source item after an error is recorded), C14_error_is_genuine (the reported error was returned by a closure future of the run), C14_result_structured / C14_ok_means_exhausted / C14_collect_ok_means_exhausted (Ok only with no error, nothing in flight and, without take, an exhausted source), C14_cancelled_work_never_completes." + CO,
+claim("C14", "DESIGN.md 6 C14", "For try_for_each and collect::<Result<Vec<_>, E>>(): C14_stops_taking (no source item after an error is recorded), C14_error_is_genuine (the reported error was returned by a closure future of the run), C14_result_structured / C14_ok_means_exhausted / C14_collect_ok_means_exhausted (Ok only with no error, nothing in flight and, without take, an exhausted source), C14_cancelled_work_never_completes, C14_in_flight_futures_dropped_with_the_operation." + CO,
       "Coq proof of invariants over an acceptor + trace inclusion of the crate's observed runs")
 claim("C15", "DESIGN.md 6 C15", "C15_enumerate_is_source_index, C15_source_items_numbered, C15_collect_all, C15_closures_once, C15_take_at_most / C15_take_exactly / C15_take_zero_takes_nothing (take(n): at most n items taken, result only after source end or n items or an error; take(0) takes none - the repaired behaviour)." + CO,
       "Coq proof of invariants over an acceptor + trace inclusion of the crate's observed runs")
